@@ -1,6 +1,6 @@
 //! C08 — array, list and map element rules are enforced on every container type.
 
-use super::c07::{observed_header, support};
+use super::c07::{observed_header, support_rot};
 use super::semacommon::*;
 use super::CheckResult;
 use crate::model::doc::*;
@@ -66,7 +66,8 @@ fn make_case(types: &[Ty], position: usize, header_variant: usize, label: String
             _ => Member::Const(Const::new(t.clone(), &name, Value::Scalar(Scalar::Integer("1".into())))),
         });
     }
-    let mut files = support();
+    // every other group of types with the kinds of t.Itf / t.Par / t.En rotated
+    let mut files = support_rot(header_variant == 0 && label.len() % 2 == 1);
     let mut header = observed_header(item);
     header.imports.push(Import::new("q.Array"));
     if builtin_imports {
